@@ -114,6 +114,7 @@ type Property struct {
 	Technique   string
 	Assumptions []string
 	MaxShards   int
+	UseRace     bool
 	Run         func(c *Ctx)
 	subs        map[string]replayer
 }
@@ -298,7 +299,7 @@ func runRegress(c *Ctx) {
 
 // RunShard executes one shard of a property run and returns its report.
 func RunShard(p *Property, tier string, seed uint64, shard, n int, known *findings.Set, budget time.Duration) *ev.Shard {
-	c := &Ctx{Prop: p, Tier: tier, Seed: seed, Shard: shard, N: n, SB: sb.New(), Ev: ev.NewCollector(), Known: known,
+	c := &Ctx{Prop: p, Tier: tier, Seed: seed, Shard: shard, N: n, SB: newSandbox(p), Ev: ev.NewCollector(), Known: known,
 		subFailed: map[string]bool{}, Memo: map[interface{}]interface{}{}}
 	if budget > 0 {
 		c.deadline = time.Now().Add(budget)
@@ -328,7 +329,7 @@ func Replay(p *Property, path string, known *findings.Set) (*Fail, error) {
 	if !ok {
 		return nil, fmt.Errorf("unknown sub-check %q", v.Sub)
 	}
-	c := &Ctx{Prop: p, Tier: "quick", Seed: 1, N: 1, SB: sb.New(), Ev: ev.NewCollector(), Known: known, subFailed: map[string]bool{}, Memo: map[interface{}]interface{}{}}
+	c := &Ctx{Prop: p, Tier: "quick", Seed: 1, N: 1, SB: newSandbox(p), Ev: ev.NewCollector(), Known: known, subFailed: map[string]bool{}, Memo: map[interface{}]interface{}{}}
 	defer c.SB.Close()
 	return sub.replay(c, v.Case)
 }
@@ -454,6 +455,19 @@ func normMsg(m string) string {
 	s := b.String()
 	if len(s) > 60 {
 		s = s[:60]
+	}
+	return s
+}
+
+// newSandbox returns the sandbox for a property: C18 uses the worker binary
+// built with the race detector (VERIF_RACE_BIN, set by ./check).
+func newSandbox(p *Property) *sb.Sandbox {
+	s := sb.New()
+	if p.UseRace {
+		if rb := os.Getenv("VERIF_RACE_BIN"); rb != "" {
+			s.Bin = rb
+			s.Env = append(s.Env, "GORACE=halt_on_error=1 exitcode=66")
+		}
 	}
 	return s
 }
